@@ -91,6 +91,11 @@ func c17Body(p c17Params, out *c17Obs) func() {
 			}
 			cl.KeyScript[k1] = many(sim.ClsCallQueue)
 			cl.KeyScript[k2] = many(sim.ClsNSRE)
+		case "request-refused-probe-fine":
+			// the region answers the client's probe but refuses every user request as not
+			// serving (HBase: "Cannot append; log is closed" is mapped to that class)
+			warm("a")
+			cl.KeyScript["a"] = many(sim.ClsNSRE)
 		case "conn-drop-request":
 			// the server passes the probe, then answers every user request with a server-fatal exception
 			warm("a")
@@ -239,7 +244,9 @@ func c17Check(p c17Params, out *c17Obs) func(res *vrt.Result) *explore.Finding {
 				continue
 			}
 			// up to two immediate retries are allowed for connection-level failures
-			connLevel := p.failure == "conn-drop-request" || p.failure == "meta-conn-drop" || p.failure == "dial-refused"
+			// (a region that refuses requests as not serving is a fail-over case like a dead
+			// connection: the client may try again at once, twice)
+			connLevel := p.failure == "conn-drop-request" || p.failure == "meta-conn-drop" || p.failure == "dial-refused" || p.failure == "request-refused-probe-fine"
 			k := 0
 			for i := 1; i < len(ts); i++ {
 				g := ts[i] - ts[i-1]
@@ -315,7 +322,7 @@ func head(ts []time.Duration, n int) []time.Duration {
 func c17Units(thorough bool) []*explore.Unit {
 	var units []*explore.Unit
 	for _, entry := range []string{"get", "batch", "batch2"} {
-		for _, failure := range []string{"retry-later", "conn-drop-request", "region-never-online", "meta-retry", "meta-conn-drop", "zk-error", "dial-refused", "meta-timeout", "zk-timeout"} {
+		for _, failure := range []string{"retry-later", "conn-drop-request", "request-refused-probe-fine", "region-never-online", "meta-retry", "meta-conn-drop", "zk-error", "dial-refused", "meta-timeout", "zk-timeout"} {
 			for _, early := range []bool{false, true} {
 				p := c17Params{entry: entry, failure: failure, early: early}
 				p.name = fmt.Sprintf("entry=%s|failure=%s|early-timers=%v", entry, failure, early)
@@ -413,7 +420,7 @@ func init() {
 	register(&Prop{
 		ID: "C17", Level: "model_checking",
 		Technique: "stateless model checking on a virtual clock: persistent-failure scripts x entry points, attempt times stamped by the simulated servers and compared with the literal back-off table; early timer firing (a slow client) as counted deviations; the step horizon turns a hot loop into a finding",
-		Rule: "persistent failures {retry-later forever, server passes the probe but drops every request, region never online, meta answers retry-later, meta drops requests, ZooKeeper errors, dial refused} x entry {single get, batch of one, batch of two} observed for 10 minutes of virtual time (about 25-35 attempts each); under the default clock the gaps of a retry-later loop must EQUAL 16 ms doubling to 8.192 s then +5 s to 33.192 s, all other loops must be >= the table with at most two immediate retries for connection-level failures; with early timer firing (<=1, thorough 2 deviations) only the lower bound applies; the wait function itself is stepped 30 times against the table. Non-trivial = every persistent-failure run.",
+		Rule: "persistent failures {retry-later forever, server passes the probe but drops every request, region passes the probe but refuses every request as not serving, region never online, meta answers retry-later, meta drops requests, ZooKeeper errors, dial refused} x entry {single get, batch of one, batch of two} observed for 10 minutes of virtual time (about 25-35 attempts each); under the default clock the gaps of a retry-later loop must EQUAL 16 ms doubling to 8.192 s then +5 s to 33.192 s, all other loops must be >= the table with at most two immediate retries for connection-level failures and not-serving answers; with early timer firing (<=1, thorough 2 deviations) only the lower bound applies; the wait function itself is stepped 30 times against the table. Non-trivial = every persistent-failure run.",
 		Assumptions: []string{"virtual clock", "establishment and lookup loops restart their schedule with every new outage (as the statement allows: they 'back off on the same schedule')"},
 		Quick:       150 * time.Second, Thorough: 20 * time.Minute,
 		Units: c17Units,
